@@ -236,14 +236,30 @@ def run_entry(case, sim, mon=None):
         return pts, domain, None
     sampler = build_sampler(e, domain)
     pts = None
-    for _ in range(int(e.get("calls", 1))):
+    calls = int(e.get("calls", 1))
+    for c in range(calls):
         sim.begin_op()
         if e["cls"].startswith("Adaptive"):
             loss = None if pts is None else torch.linspace(0, 1, len(pts))
-            pts = sampler.sample_points(unreduced_loss=loss, params=params)
+            pc = params
+            seq = earlier_prows(case)
+            if c < calls - 1 and c < len(seq):
+                # an earlier round of the history was called with other parameter rows
+                pc = B.params_points(case.get("pspace"), seq[c])
+            pts = sampler.sample_points(unreduced_loss=loss, params=pc)
         else:
             pts = sampler.sample_points(params)
     return pts, domain, sampler
+
+
+def earlier_prows(case):
+    """Parameter rows of the earlier calls of an adaptive history (same number of rows as
+    the last call, which uses case['prows'])."""
+    e = case["entry"]
+    prows = case.get("prows") or []
+    if not prows or not e.get("prows_seq") or int(e.get("calls", 1)) < 2:
+        return []
+    return [[list(r) for r in rows[:len(prows)]] for rows in e["prows_seq"] if len(rows) >= len(prows)]
 
 
 def check_membership(case, pts, out, stats):
@@ -328,13 +344,24 @@ def check_counts(case, pts, sampler, out, stats):
             return
         if k and n:
             P = B.table(pts)
-            ref = B.repeat_rows(pspace, [list(np.float32(r).astype(float)) for r in prows], n)
-            for v, _ in pspace:
-                if v in dsp:
-                    continue
-                if not np.array_equal(P[v], ref[v]):
-                    out.append(viol("C02", "pairing", "parameter-row-not-carried", "", var=v))
+            f32 = lambda rows_: [list(np.float32(r).astype(float)) for r in rows_]
+            ref = B.repeat_rows(pspace, f32(prows), n)
+            # a row kept by an adaptive sampler carries the parameter row of the call that drew it
+            alts = [B.repeat_rows(pspace, f32(rows_), n) for rows_ in earlier_prows(case)]
+            pv = [v for v, _ in pspace if v not in dsp]
+            if pv:
+                got = np.concatenate([P[v] for v in pv], axis=1)
+                okrow = np.zeros(len(got), bool)
+                for tab in [ref] + alts:
+                    okrow |= np.all(got == np.concatenate([tab[v] for v in pv], axis=1), axis=1)
+                if not okrow.all():
+                    out.append(viol("C02", "pairing", "parameter-row-not-carried", "", var=pv[0],
+                                    rows_bad=int((~okrow).sum())))
                     return
+                if alts:
+                    stats["adaptive_param_history"] = stats.get("adaptive_param_history", 0) + 1
+                    stats["rows_with_earlier_params"] = stats.get("rows_with_earlier_params", 0) + int(
+                        (~np.all(got == np.concatenate([ref[v] for v in pv], axis=1), axis=1)).sum())
         if sampler is not None and k == 0:
             try:
                 ln = len(sampler)
